@@ -127,5 +127,23 @@ pub fn tabs_everywhere(_args: &[String]) -> String {
             return fail("C16 the output of a custom key reaches the line tab-free, however it is written", &[format!("custom key writing a tab via {}", name)], &want, &got);
         }
     }
+    // several tabs in one chunk, at the start, at the end, next to each other; tab widths 8 (default), 2 and 0
+    for tw in [8usize, 2, 0] {
+        for text in ["a\t\tb", "\tx\ty\t", "\t\t", "x\ty\tz\tw", "no tab", "t\t"] {
+            let owned = text.to_string();
+            let style = ProgressStyle::with_template("{k}|").unwrap().with_key("k", move |_s: &ProgressState, w: &mut dyn Write| { w.write_str(&owned).unwrap(); });
+            let term = indicatif::InMemoryTerm::new(4, 80);
+            let pb = indicatif::ProgressBar::with_draw_target(Some(10), indicatif::ProgressDrawTarget::term_like(Box::new(term.clone())));
+            pb.set_tab_width(tw);
+            pb.set_style(style);
+            pb.tick();
+            tried += 1;
+            let got = term.contents();
+            let want = format!("{}|", text.replace('\t', &sp(tw)));
+            if got != want {
+                return fail("C16 the output of a custom key reaches the line tab-free: every tab of a chunk is expanded to the current tab width", &[format!("tab width {}; custom key writing {:?} in one write_str", tw, text)], &want, &got);
+            }
+        }
+    }
     format!("{{\"found\": false, \"tried\": {}}}", tried)
 }
